@@ -58,7 +58,10 @@ def main():
     with cf.ThreadPoolExecutor(j) as ex:
         for mid, out in ex.map(one, ids):
             p = os.path.join(SE, mid, "meta.json")
-            meta = json.load(open(p)); meta["regression"] = out
+            meta = json.load(open(p))
+            key = "regression" if os.environ.get("VERIF_SEED", "0") in ("", "0") else "regression_seed" + os.environ["VERIF_SEED"]
+            out["seed"] = int(os.environ.get("VERIF_SEED", "0") or 0)
+            meta[key] = out
             json.dump(meta, open(p, "w"), indent=1)
             print(mid, "OK" if out.get("detected") and out.get("demo_changed_exit", 1) != 0 and out.get("demo_clean_exit", 0) == 0 else "PROBLEM", json.dumps(out)[:300], flush=True)
 main()
